@@ -50,7 +50,7 @@ class _Stop(Exception):
 
 
 _BIN = {ast.Add: operator.add, ast.Sub: operator.sub, ast.Mult: operator.mul, ast.Div: operator.truediv, ast.FloorDiv: operator.floordiv, ast.Mod: operator.mod, ast.Pow: operator.pow, ast.LShift: operator.lshift, ast.RShift: operator.rshift, ast.BitAnd: operator.and_, ast.BitOr: operator.or_, ast.BitXor: operator.xor}
-_CMP = {ast.Eq: operator.eq, ast.NotEq: operator.ne, ast.Lt: operator.lt, ast.LtE: operator.le, ast.Gt: operator.gt, ast.GtE: operator.ge, ast.Is: operator.is_, ast.IsNot: operator.is_not}
+_CMP = {ast.In: lambda a, b: a in b, ast.NotIn: lambda a, b: a not in b, ast.Eq: operator.eq, ast.NotEq: operator.ne, ast.Lt: operator.lt, ast.LtE: operator.le, ast.Gt: operator.gt, ast.GtE: operator.ge, ast.Is: operator.is_, ast.IsNot: operator.is_not}
 _FUN = {"min": min, "max": max, "round": round, "int": int, "float": float, "abs": abs, "len": len, "bool": bool}
 
 
@@ -66,7 +66,10 @@ class FakeObj:
 
 
 class Mini:
-    def __init__(self, repo: Repo, module: Module, atoms: Optional[dict] = None, cls=None):
+    def __init__(self, repo: Repo, module: Module, atoms: Optional[dict] = None, cls=None, lenient: bool = False):
+        # lenient: a statement whose value lies outside the fragment binds an opaque stand-in instead of aborting (for
+        # evaluating one attribute of a constructor that also sets up unrelated state)
+        self.lenient = lenient
         """atoms: normalised expression text -> concrete value (e.g. 'self.min_target_temperature' -> 16)."""
         self.repo, self.module, self.atoms, self.cls = repo, module, atoms or {}, cls
         self.depth = 0
@@ -76,6 +79,8 @@ class Mini:
         t = norm_text(e)
         if t in self.atoms:
             return self.atoms[t]
+        if isinstance(e, ast.Attribute) and t in env:
+            return env[t]  # an attribute assigned earlier in the evaluated code (self.x = ...)
         if isinstance(e, ast.Constant):
             return e.value
         if isinstance(e, ast.Name):
@@ -89,6 +94,8 @@ class Mini:
                 return v
             if isinstance(v, (list, tuple)) and all(isinstance(x, _PLAIN) for x in v):
                 return list(v) if isinstance(v, list) else tuple(v)
+            if isinstance(v, dict) and all(isinstance(k, _PLAIN) and isinstance(x, _PLAIN) for k, x in v.items()):
+                return dict(v)
             raise Unsupported(f"name {e.id} is not a plain constant")
         if isinstance(e, ast.Attribute):
             try:
@@ -144,6 +151,8 @@ class Mini:
             return True
         if isinstance(e, ast.IfExp):
             return self.ev(e.body, env) if self.ev(e.test, env) else self.ev(e.orelse, env)
+        if isinstance(e, ast.Dict) and all(k is not None for k in e.keys):
+            return {self.ev(k, env): self.ev(v, env) for k, v in zip(e.keys, e.values)}
         if isinstance(e, (ast.Tuple, ast.List)):
             items = []
             for x in e.elts:
@@ -160,6 +169,15 @@ class Mini:
                 self._bind(g.target, item, env2)
                 if all(self.ev(c, env2) for c in g.ifs):
                     out.append(self.ev(e.elt, env2))
+            return out
+        if isinstance(e, ast.DictComp) and len(e.generators) == 1 and not e.generators[0].is_async:
+            g = e.generators[0]
+            out = {}
+            for item in list(self.ev(g.iter, env)):
+                env2 = dict(env)
+                self._bind(g.target, item, env2)
+                if all(self.ev(c, env2) for c in g.ifs):
+                    out[self.ev(e.key, env2)] = self.ev(e.value, env2)
             return out
         if isinstance(e, ast.Subscript) and not isinstance(e.slice, ast.Slice):
             base, idx = self.ev(e.value, env), self.ev(e.slice, env)
@@ -184,6 +202,15 @@ class Mini:
                 except Exception as ex:
                     raise Unsupported(f"{d}(): {ex}")
                 return list(r) if d != "tuple" else tuple(r)
+            if isinstance(e.func, ast.Attribute) and e.func.attr in ("items", "keys", "values", "get") and not e.keywords:
+                try:
+                    obj = self.ev(e.func.value, env)
+                except Unsupported:
+                    obj = None
+                if isinstance(obj, dict):
+                    args = [self.ev(a, env) for a in e.args]
+                    r = getattr(obj, e.func.attr)(*args)
+                    return list(r) if e.func.attr != "get" else r
             if isinstance(e.func, ast.Attribute) and e.func.attr in ("popleft", "pop", "append", "appendleft", "copy", "clear", "index") and not e.keywords:
                 try:
                     obj = self.ev(e.func.value, env)
@@ -274,10 +301,17 @@ class Mini:
             if isinstance(s, (ast.Assign, ast.AnnAssign)):
                 if isinstance(s, ast.AnnAssign) and s.value is None:
                     continue
-                v = self.ev(s.value, env)
+                try:
+                    v = self.ev(s.value, env)
+                except Unsupported:
+                    if not self.lenient:
+                        raise
+                    v = FakeObj("<opaque>")
                 for t in (s.targets if isinstance(s, ast.Assign) else [s.target]):
                     if isinstance(t, ast.Attribute) and norm_text(t) in self.atoms:
                         self.atoms[norm_text(t)] = v  # state named as an atom is rebound
+                    elif isinstance(t, ast.Attribute) and isinstance(t.value, ast.Name) and t.value.id == "self":
+                        env[norm_text(t)] = v
                     else:
                         self._bind(t, v, env)
                 continue
@@ -290,7 +324,13 @@ class Mini:
                 self.run(s.body if self.ev(s.test, env) else s.orelse, env, stop)
                 continue
             if isinstance(s, (ast.For,)) and not s.orelse:
-                for item in list(self.ev(s.iter, env)):
+                try:
+                    seq = list(self.ev(s.iter, env))
+                except (Unsupported, TypeError):
+                    if not self.lenient:
+                        raise
+                    continue
+                for item in seq:
                     self._bind(s.target, item if not isinstance(item, list) else tuple(item) if isinstance(s.target, ast.Tuple) else item, env)
                     try:
                         self.run(s.body, env, stop)
